@@ -12,3 +12,94 @@ func HarnessId62RoundTrip() {
 	verifAssert(err == nil, "parses")
 	verifAssert(back == id, "roundtrip")
 }
+
+func refIsBase62(c byte) bool {
+	return verifAny(verifAll(c >= '0', c <= '9'), verifAll(c >= 'a', c <= 'z'), verifAll(c >= 'A', c <= 'Z'))
+}
+
+// refClass62: math/big's base-62 alphabet is 0-9 < a-z < A-Z
+func refClass62(c byte) int {
+	switch {
+	case c >= '0' && c <= '9':
+		return 0
+	case c >= 'a' && c <= 'z':
+		return 1
+	}
+	return 2
+}
+
+// refCmp62: order of two base-62 digits (-1, 0, 1), by comparisons only
+func refCmp62(a, b byte) int {
+	ca, cb := refClass62(a), refClass62(b)
+	switch {
+	case ca < cb:
+		return -1
+	case ca > cb:
+		return 1
+	case a < b:
+		return -1
+	case a > b:
+		return 1
+	}
+	return 0
+}
+
+// 2^128-1 in math/big's base-62 alphabet
+const verifMaxID62 = "7N42dgm5tFLK9N8MT7fHC7"
+
+// H20b: the parser on arbitrary strings. The string is classified first
+// (independently of the parser): not a base-62 numeral, or an unsigned numeral
+// with more than 22 significant digits, or with 22 significant digits that
+// exceed 2^128-1 digit by digit — each of these must be rejected; no input
+// panics. What a signed numeral means is not specified (math/big accepts a
+// sign), so only panic freedom is checked for those.
+func HarnessId62ParseArbitrary() {
+	n := ndIntRange("len", verifParam("minLen", 0), verifParam("L", 23))
+	b := make([]byte, n)
+	for i := range b {
+		b[i] = ndByteInt("c")
+	}
+	mustReject, signed := false, false
+	digits := b
+	if n > 0 && (b[0] == '+' || b[0] == '-') {
+		signed = true
+		digits = b[1:]
+	}
+	if len(digits) == 0 {
+		mustReject = true
+	}
+	numeral := true
+	for _, c := range digits {
+		numeral = verifAll(numeral, refIsBase62(c))
+	}
+	if !numeral {
+		mustReject = true
+	} else if !signed && len(digits) > 0 {
+		k := 0
+		for k < len(digits)-1 && digits[k] == '0' {
+			k++
+		}
+		sig := digits[k:]
+		if len(sig) > 22 {
+			mustReject = true
+		}
+		if len(sig) == 22 {
+			// one path per position of the first difference from 2^128-1
+			for i := 0; i < 22; i++ {
+				o := refCmp62(sig[i], verifMaxID62[i])
+				if o > 0 {
+					mustReject = true
+				}
+				if o != 0 {
+					break
+				}
+			}
+		}
+	}
+	_, err := Parse(string(b))
+	if mustReject {
+		verifAssert(err != nil, "not-an-identifier-rejected")
+	} else {
+		verifReach("not-classified-as-faulty")
+	}
+}
